@@ -406,3 +406,39 @@ def producers(body, du, op, depth=0, seen=None):
             else:
                 out.append(("call", c))
     return out
+
+
+def affine(body, du, op, depth=0):
+    """(coef, const) when op = coef * x + const for a single unknown x (a loop variable), through copies, casts, checked
+    add / sub / mul with constants; None when it is not of that form"""
+    if depth > 15:
+        return None
+    if "c" in op:
+        n = op["c"].get("int")
+        return (0, n) if n is not None else None
+    pl = op.get("mv") or op.get("cp")
+    if pl is None:
+        return None
+    defs = [d for d in du.defs.get(pl["l"], []) if d[0] == "assign" and not d[3]["place"]["p"]]
+    calls = [d for d in du.defs.get(pl["l"], []) if d[0] == "call"]
+    if len(defs) == 1 and not calls:
+        rv = defs[0][3]["rv"]
+        if rv["k"] in ("use", "cast"):
+            return affine(body, du, rv["a"], depth + 1)
+        if rv["k"] == "binop":
+            a = affine(body, du, rv["a"], depth + 1)
+            c = affine(body, du, rv["b"], depth + 1)
+            if a is None or c is None:
+                return None
+            o = rv["op"].replace("WithOverflow", "").replace("Unchecked", "")
+            if o == "Add":
+                return (a[0] + c[0], a[1] + c[1])
+            if o == "Sub":
+                return (a[0] - c[0], a[1] - c[1])
+            if o == "Mul":
+                if a[0] == 0:
+                    return (a[1] * c[0], a[1] * c[1])
+                if c[0] == 0:
+                    return (c[1] * a[0], c[1] * a[1])
+            return None
+    return (1, 0)
